@@ -540,6 +540,33 @@ func (fx *FnExec) applyContract(fr *frame, st *State, fc *FuncContract, callee *
 			}
 		}
 	}
+	if !fc.Pure {
+		// an interface-typed argument whose dynamic type is known here to be a pointer to a modelled object (a
+		// bytes.Buffer handed over as io.Writer, ...): a callee that is not pure may call methods on it, and its
+		// contract - written against the interface - cannot name the object's fields.  The object is forgotten.
+		forget := func(v Val) {
+			iv, ok := v.(IfaceV)
+			if !ok || iv.Tag == nil || iv.Tag.Op != "bv" || !iv.Tag.Val.IsInt64() {
+				return
+			}
+			ct := fx.eng.typeOfTag(int(iv.Tag.Val.Int64()))
+			if ct == nil {
+				return
+			}
+			if pt, isP := under(ct).(*types.Pointer); isP && isObjT(pt.Elem()) {
+				for _, f := range fx.havocObj(st, pt.Elem(), iv.Ref) {
+					f()
+				}
+				fx.note("an object passed behind an interface to a non-pure callee is forgotten at the call (the callee may call its methods)")
+			}
+		}
+		if recv != nil {
+			forget(recv)
+		}
+		for _, a := range args {
+			forget(a)
+		}
+	}
 	var res Val
 	hasRes := rt != nil
 	if tt, ok := rt.(*types.Tuple); ok && tt.Len() == 0 {
